@@ -317,13 +317,13 @@ func str(v value) string {
 	return s
 }
 
-var vsymFns map[string]externalFn
+var vsymFns = map[string]externalFn{}
 
 func init() {
 	sym := func(k types.BasicKind) externalFn {
 		return func(fr *frame, a []value) value { return fr.i.pm.fresh(str(a[0]), k) }
 	}
-	vsymFns = map[string]externalFn{
+	addAll(vsymFns, map[string]externalFn{
 		"Int64":  sym(types.Int64),
 		"Int":    sym(types.Int),
 		"Int32":  sym(types.Int32),
@@ -383,6 +383,13 @@ func init() {
 			return notVal(andVals([]value{a[0], notVal(a[1])}))
 		},
 		"Not": func(fr *frame, a []value) value { return notVal(a[0]) },
+		"IsConcrete": func(fr *frame, a []value) value { return fr.i.pm.note(!containsSym(a[0].(iface).v)) },
+	})
+}
+
+func addAll(dst, src map[string]externalFn) {
+	for k, v := range src {
+		dst[k] = v
 	}
 }
 
@@ -544,7 +551,7 @@ func strSlice(ss []string) value {
 
 func ptrTo(v value) *value { return &v }
 
-var natives map[string]externalFn
+var natives = map[string]externalFn{}
 
 func init() {
 	atomicAdd := func(t types.Type) externalFn {
@@ -568,7 +575,7 @@ func init() {
 			return false
 		}
 	}
-	natives = map[string]externalFn{
+	addAll(natives, map[string]externalFn{
 		"sync/atomic.AddInt64":    atomicAdd(types.Typ[types.Int64]),
 		"sync/atomic.AddInt32":    atomicAdd(types.Typ[types.Int32]),
 		"sync/atomic.AddUint64":   atomicAdd(types.Typ[types.Uint64]),
@@ -762,7 +769,7 @@ func init() {
 		"os.Exit":             func(fr *frame, a []value) value { panic(targetPanic{iface{types.Typ[types.String], "os.Exit"}, fr.pos(token.NoPos)}) },
 
 		"errors.As": nativeErrorsAs,
-	}
+	})
 }
 
 func (i *interpreter) wg(p *value) *int64 {
